@@ -196,11 +196,109 @@ def rule_d1(ctx):
                             and len(s.targets) == 1
                             and dotted(s.targets[0]) in returned]
                 arms.setdefault(v, []).append((f, n, rets, dataparam))
-    if not arms:
+    # table-driven dispatch: `for m, name in ((Model.X, "x_coords"), ...):
+    #     if model == m: return getattr(self, name)(data, **kwargs)`
+    table_arms = {}
+    dynamic = False
+    for f in funcs:
+        dataparam = f.params[2] if len(f.params) > 2 else None
+        modelparam = f.params[1] if len(f.params) > 1 else "model"
+        defs = single_defs(f.node)
+        for n in ast.walk(f.node):
+            if isinstance(n, ast.Call) and dotted(n.func) == "getattr":
+                dynamic = True
+            if not (isinstance(n, ast.For) and isinstance(n.target, ast.Tuple)
+                    and len(n.target.elts) == 2
+                    and all(isinstance(x, ast.Name) for x in n.target.elts)):
+                continue
+            seq = n.iter
+            if isinstance(seq, ast.Name) and seq.id in defs:
+                seq = defs[seq.id]
+            if isinstance(seq, ast.Call) and dotted(seq.func).endswith(
+                    ".items") and isinstance(seq.func.value, ast.Name) \
+                    and seq.func.value.id in defs:
+                seq = defs[seq.func.value.id]
+            pairs = None
+            if isinstance(seq, (ast.Tuple, ast.List)) and all(
+                    isinstance(x, ast.Tuple) and len(x.elts) == 2
+                    for x in seq.elts):
+                pairs = [(x.elts[0], x.elts[1]) for x in seq.elts]
+            elif isinstance(seq, ast.Dict):
+                pairs = list(zip(seq.keys, seq.values))
+            if not pairs:
+                continue
+            mvar, nvar = (x.id for x in n.target.elts)
+            # the body: `if model == mvar: return <getattr(self, nvar)>(...)`
+            ret = None
+            for st in ast.walk(n):
+                if isinstance(st, ast.If) and isinstance(st.test, ast.Compare) \
+                        and len(st.test.ops) == 1 \
+                        and isinstance(st.test.ops[0], ast.Eq) \
+                        and {dotted(st.test.left),
+                             dotted(st.test.comparators[0])} == {modelparam,
+                                                                 mvar}:
+                    bdefs = {}
+                    for b in st.body:
+                        if isinstance(b, ast.Assign) and len(b.targets) == 1 \
+                                and isinstance(b.targets[0], ast.Name):
+                            bdefs[b.targets[0].id] = b.value
+                        if isinstance(b, ast.Return) and isinstance(
+                                b.value, ast.Call):
+                            fn = b.value.func
+                            if isinstance(fn, ast.Name) and fn.id in bdefs:
+                                fn = bdefs[fn.id]
+                            if isinstance(fn, ast.Call) and dotted(
+                                    fn.func) == "getattr" \
+                                    and len(fn.args) == 2 \
+                                    and dotted(fn.args[0]) == "self" \
+                                    and dotted(fn.args[1]) == nvar:
+                                ret = b
+            if ret is None:
+                continue
+            for mexpr, nexpr in pairs:
+                v = _model_of_test(ast.Compare(
+                    left=ast.Name(id=modelparam, ctx=ast.Load()),
+                    ops=[ast.Eq()], comparators=[mexpr]), enum)
+                if v is None or not (isinstance(nexpr, ast.Constant)
+                                     and isinstance(nexpr.value, str)):
+                    continue
+                table_arms.setdefault(v, []).append(
+                    (f, ret, "self." + nexpr.value, dataparam))
+    if not arms and not table_arms:
         raise AnalysisError("coords dispatch: no `if model == Model.X` arm "
                             "recognised in Point.coords / "
                             "HyperbolicObject.coords")
     for v in values:
+        if v not in arms and v in table_arms:
+            for f, ret, hname, dataparam in table_arms[v]:
+                call = ret.value
+                okname = hname.endswith("_coords") \
+                    and ALIAS5.get(hname[5:10]) == ALIAS5.get(v[:5])
+                fwd_data = any(dotted(a) == dataparam for a in call.args) \
+                    or any(dotted(k.value) == dataparam
+                           for k in call.keywords)
+                fwd_kw = any(k.arg is None for k in call.keywords)
+                if okname and fwd_data and fwd_kw:
+                    r.ok("D1", f"coords[{v}]", loc(f, ret), norm_stmt(ret),
+                         f"dispatch table row maps the model to {hname}; the "
+                         "call forwards data + **kwargs")
+                else:
+                    r.violation(
+                        "D1", f"{f.fq}|{v}|forward", loc(f, ret),
+                        norm_stmt(ret)[:160],
+                        f"dispatch table row for '{v}' names {hname}"
+                        + ("" if okname else " (not that model's accessor)")
+                        + ("" if fwd_data else "; the data argument is not "
+                           "forwarded")
+                        + ("" if fwd_kw else "; **kwargs is not forwarded"),
+                        instance=f"coords[{v}]")
+            continue
+        if v not in arms and dynamic:
+            r.note("D1", loc(pc, pc.node), f"coords[{v}]",
+                   "no `if model == Model.X` arm for this value, but the "
+                   "dispatch goes through getattr in a form the rule does "
+                   "not follow (not judged)")
+            continue
         if v not in arms:
             r.violation(
                 "D1", f"{pc.fq}|missing:{v}", loc(pc, pc.node),
@@ -305,10 +403,72 @@ def rule_i1(ctx):
                 cur = par
             return False
         allc = _convs(f.node)
-        setc = [c for c in allc if on_set_path(c[2])]
-        getc = [c for c in allc if not on_set_path(c[2])]
-        if not setc and not getc:
+        if not allc:
             raise AnalysisError(f"Point.{acc}: no chart conversion found")
+        # conversions per path: what runs when the data argument is given
+        # and when it is not (an early return may repeat the get conversion)
+        from ..paths import enumerate_paths
+
+        def executed(flag):
+            stmts = [st for st in ast.walk(f.node) if isinstance(st, ast.stmt)
+                     and not isinstance(st, (ast.If, ast.For, ast.While,
+                                             ast.Try, ast.With,
+                                             ast.FunctionDef))
+                     and any(c[2] in set(ast.walk(st)) for c in allc)]
+            seqs = set()
+            for pth in enumerate_paths(f.node, markers=stmts,
+                                       flags={dataparam: flag}):
+                seq = []
+                for ev in pth.events:
+                    if not any(ev is st for st in stmts):
+                        continue
+                    inside = set(ast.walk(ev))
+                    for c in allc:
+                        if c[2] not in inside:
+                            continue
+                        # inside a conditional expression: only the arm
+                        # selected under this flag runs
+                        cur, live = c[2], True
+                        while cur is not ev:
+                            par = parents[cur]
+                            if isinstance(par, ast.IfExp):
+                                t = eval_test(par.test, {dataparam: flag})
+                                if (t is True and cur is par.orelse) or \
+                                        (t is False and cur is par.body):
+                                    live = False
+                            cur = par
+                        if live:
+                            seq.append(c)
+                seqs.add(tuple((a, b, id(n)) for a, b, n in seq))
+            return seqs
+        by_id = {id(n): (a, b, n) for a, b, n in allc}
+        get_paths = executed("none")
+        set_paths = executed("notnone")
+        setc, getc = [], []
+        shape_ok = True
+        for sq in get_paths:
+            if len(sq) != 1:
+                shape_ok = False
+            getc += [by_id[i] for _, _, i in sq]
+        for sq in set_paths:
+            if len(sq) != 2:
+                shape_ok = False
+            else:
+                setc.append(by_id[sq[0][2]])
+                getc.append(by_id[sq[1][2]])
+        # de-duplicate by (from, to): the same map at two places is one map
+        def uniq(cs):
+            seen, out = set(), []
+            for a, b, n in cs:
+                if (a, b) not in seen:
+                    seen.add((a, b))
+                    out.append((a, b, n))
+            return out
+        if shape_ok and get_paths and set_paths:
+            setc, getc = uniq(setc), uniq(getc)
+        else:
+            setc = [c for c in allc if on_set_path(c[2])]
+            getc = [c for c in allc if not on_set_path(c[2])]
         dels = {dotted(d.func) for d in _delegates(f.node)}
         inst = f"Point.{acc}"
         where = loc(f, f.node)
